@@ -164,8 +164,8 @@ const SEED_SCALE: [f64; 8] = [1.0, 3.0, 0.5, 7.0, 0.25, 5.0, 2.0, 1.5];
 
 /// Index-coded data: every entry of a matrix is distinct and identifies its (row, column), so that
 /// any row-/column-major mix-up, swapped dimension or wrong operand changes the result. `variant`
-/// distinguishes the two operands of a binary operation. Fill 3 is the small alphabet {-1,0,1,2}
-/// (ties for argmax, duplicates for unique, zeros as divisors).
+/// distinguishes the two operands of a binary operation. Fill 3 is the small alphabet {-1,0,1}
+/// (ties at the row maximum for argmax, duplicates for unique, zeros as divisors).
 pub fn fill(kind: usize, r: usize, c: usize, variant: usize, seed: u64) -> M {
     let f = SEED_SCALE[(seed % 8) as usize];
     M::new(r, c, |i, j| {
@@ -174,7 +174,7 @@ pub fn fill(kind: usize, r: usize, c: usize, variant: usize, seed: u64) -> M {
             0 => (if (i + j) % 2 == 0 { base } else { -base }) * f,
             1 => -base * f,
             2 => base * f,
-            _ => (((i * 5 + j * 3 + variant * 2) % 4) as f64 - 1.0) * f,
+            _ => (((i * 2 + j * j + variant) % 3) as f64 - 1.0) * f,
         }
     })
 }
@@ -659,7 +659,7 @@ pub fn model(op: &Op, a: &M, b: Option<&M>) -> Exp {
             one(Val::mat(&x.mul(&y)))
         }
         // ---- vectors (a is 1 x n)
-        K::VBasic => Exp::Val(vec![Val::num(a.c as f64), Val::flag(a.c == 0), Val::vec(a.v.clone()), Val::vec(a.v.clone())]),
+        K::VBasic => Exp::Val(vec![Val::num(a.c as f64), Val::flag(a.c == 0), Val::vec(a.v.clone()), Val::vec(a.v.clone()), Val::flag(true)]),
         K::VSet => {
             let mut v = a.v.clone();
             v[op.i] = op.x;
